@@ -24,7 +24,7 @@ def run(ctx, res):
     first["numbers"] = first["numbers"] + [9]
     first["names"] = first["names"] + ["9"]
     first["id"] = -1
-    open(gpath, "w").write("\n".join(lines + ['<<"G", ' + json.dumps(json.dumps(first)) + '>>']) + "\n")
+    open(gpath, "w").write("\n".join(['<<"G", ' + json.dumps(json.dumps(first)) + '>>'] + lines) + "\n")
     d = json.loads(ctx.run_vh(["replay-groups", "-i", gpath]).stdout)
     os.remove(gpath)
     self_hit = [m for m in d["mismatches"] if m["numbers"][-1:] == [9] and m["names"][-1:] == ["9"] and len(m["numbers"]) == len(first["numbers"])]
